@@ -399,6 +399,19 @@ theorem CliIso.record (w : W) (c c' : Cli) (hid : c'.id = c.id) (hfd : c'.fd = c
     (hcmd : c'.cmd = c.cmd) (hb : ∃ b, c'.toBuf = c.toBuf ++ b) : CliIso w c (w, c') [] :=
   ⟨rfl, hid, hfd, hq, Enq.same rfl rfl rfl hcmd, by simp, by simp, fun _ _ => rfl, Or.inl hb⟩
 
+/-- "if this stage wrote to the descriptor, the client has quit": true of every stage except `_handle_write` called for
+    POLLOUT — the only other caller of `_handle_write` is the `quit` command -/
+def WQ (r : W × Cli) (ext : List Sys) : Prop := (∃ s ∈ ext, isWrite s = true) → r.2.quit = true
+
+theorem WQ.nil (r : W × Cli) : WQ r [] := by intro ⟨s, hs, _⟩; cases hs
+
+theorem WQ.trans {r r' : W × Cli} {e e' : List Sys} (h1 : WQ r e) (h2 : CliIso r.1 r.2 r' e') (h3 : WQ r' e') :
+    WQ r' (e ++ e') := by
+  intro ⟨s, hs, hw⟩
+  rcases List.mem_append.mp hs with hs | hs
+  · exact h2.quit (h1 ⟨s, hs, hw⟩)
+  · exact h3 ⟨s, hs, hw⟩
+
 theorem capOf_setCap_ne (w : W) (fd fd' : Nat) (v : Int) (h : fd' ≠ fd) : capOf (setCap w fd v) fd' = capOf w fd' := by
   unfold capOf setCap
   dsimp only
@@ -454,17 +467,18 @@ theorem handleWrite_iso (w : W) (c : Cli) : ∃ ext, CliIso w c (handleWrite w c
     · exact ⟨[], by split <;> simp⟩
   exact ⟨[] ++ ext, h0.trans h⟩
 
-theorem cpRead_iso (w : W) (c : Cli) (e : Option FdEnv) : ∃ ext, CliIso w c (ClientPf.cpRead w c e) ext := by
+theorem cpRead_iso (w : W) (c : Cli) (e : Option FdEnv) :
+    ∃ ext, CliIso w c (ClientPf.cpRead w c e) ext ∧ ∀ s ∈ ext, isWrite s = false := by
   unfold ClientPf.cpRead
   split
   · split
-    · exact ⟨_, CliIso.sysOnly w c _ _ rfl rfl rfl (fun _ => rfl) rfl (Or.inl ⟨[], by simp⟩)⟩
+    · exact ⟨_, CliIso.sysOnly w c _ _ rfl rfl rfl (fun _ => rfl) rfl (Or.inl ⟨[], by simp⟩), by simp [isWrite]⟩
     · split
-      · exact ⟨_, CliIso.sysOnly w c _ _ rfl rfl rfl (fun _ => rfl) rfl (Or.inl ⟨[], by simp⟩)⟩
+      · exact ⟨_, CliIso.sysOnly w c _ _ rfl rfl rfl (fun _ => rfl) rfl (Or.inl ⟨[], by simp⟩), by simp [isWrite]⟩
       · split
-        · exact ⟨_, CliIso.sysOnly w c _ _ rfl rfl rfl (fun _ => rfl) rfl (Or.inl ⟨[], by simp⟩)⟩
-        · exact ⟨_, CliIso.sysOnly w c _ _ rfl rfl rfl (fun h => h) rfl (Or.inl ⟨[], by simp⟩)⟩
-  · exact ⟨[], CliIso.refl w c⟩
+        · exact ⟨_, CliIso.sysOnly w c _ _ rfl rfl rfl (fun _ => rfl) rfl (Or.inl ⟨[], by simp⟩), by simp [isWrite]⟩
+        · exact ⟨_, CliIso.sysOnly w c _ _ rfl rfl rfl (fun h => h) rfl (Or.inl ⟨[], by simp⟩), by simp [isWrite]⟩
+  · exact ⟨[], CliIso.refl w c, by simp⟩
 
 /-! ### `_parse_input`, branch by branch -/
 
@@ -474,8 +488,9 @@ theorem plFin_iso (w : W) (c : Cli) (b : Bytes) : CliIso w c (ClientPf.plFin w c
 theorem plNodes_iso (w : W) (c : Cli) : CliIso w c (ClientPf.plNodes w c) [] := by
   unfold ClientPf.plNodes
   split
-  · exact ⟨rfl, rfl, rfl, fun h => h, Enq.same rfl rfl rfl rfl, by simp, by simp, fun _ _ => rfl, Or.inl ⟨[], by simp⟩⟩
-  · exact ⟨rfl, rfl, rfl, fun h => h, Enq.same rfl rfl rfl rfl, by simp, by simp, fun _ _ => rfl, Or.inl ⟨_, rfl⟩⟩
+  all_goals first
+    | exact ⟨rfl, rfl, rfl, fun h => h, Enq.same rfl rfl rfl rfl, by simp, by simp, fun _ _ => rfl, Or.inl ⟨_, rfl⟩⟩
+    | exact ⟨rfl, rfl, rfl, fun h => h, Enq.same rfl rfl rfl rfl, by simp, by simp, fun _ _ => rfl, Or.inl ⟨[], by simp⟩⟩
 
 theorem plTelemetry_iso (w : W) (c : Cli) : CliIso w c (ClientPf.plTelemetry w c) [] :=
   CliIso.record w c _ rfl rfl (fun h => h) rfl ⟨_, rfl⟩
@@ -483,12 +498,12 @@ theorem plTelemetry_iso (w : W) (c : Cli) : CliIso w c (ClientPf.plTelemetry w c
 theorem plExprange_iso (w : W) (c : Cli) : CliIso w c (ClientPf.plExprange w c) [] :=
   CliIso.record w c _ rfl rfl (fun h => h) rfl ⟨_, rfl⟩
 
-theorem plQuit_iso (w : W) (c : Cli) : ∃ ext, CliIso w c (ClientPf.plQuit w c) ext := by
+theorem plQuit_iso (w : W) (c : Cli) : ∃ ext, CliIso w c (ClientPf.plQuit w c) ext ∧ WQ (ClientPf.plQuit w c) ext := by
   unfold ClientPf.plQuit
   obtain ⟨ext, h⟩ := handleWrite_iso w (put { c with quit := true } (codeLine 101 ++ crlf))
   have h0 : CliIso w c (w, put { c with quit := true } (codeLine 101 ++ crlf)) [] :=
     CliIso.record w c _ rfl rfl (fun _ => rfl) rfl ⟨_, rfl⟩
-  exact ⟨[] ++ ext, h0.trans h⟩
+  exact ⟨[] ++ ext, h0.trans h, fun _ => h.quit rfl⟩
 
 /-- `install` on an idle client -/
 theorem install_iso (w : W) (c : Cli) (com : Com) (names : List Name) (hidle : c.cmd = none) :
@@ -543,25 +558,27 @@ theorem plRest_iso (w : W) (c : Cli) (str : Bytes) (hidle : c.cmd = none) : CliI
         · exact plDevice_iso ..
   · exact plCmd_iso w c _ _ hidle
 
-theorem plIdle_iso (w : W) (c : Cli) (str : Bytes) (hidle : c.cmd = none) : ∃ ext, CliIso w c (ClientPf.plIdle w c str) ext := by
+theorem plIdle_iso (w : W) (c : Cli) (str : Bytes) (hidle : c.cmd = none) :
+    ∃ ext, CliIso w c (ClientPf.plIdle w c str) ext ∧ WQ (ClientPf.plIdle w c str) ext := by
   unfold ClientPf.plIdle
   split
-  · exact ⟨_, plFin_iso ..⟩
+  · exact ⟨_, plFin_iso .., WQ.nil _⟩
   · split
-    · exact ⟨_, plNodes_iso ..⟩
+    · exact ⟨_, plNodes_iso .., WQ.nil _⟩
     · split
-      · exact ⟨_, plTelemetry_iso ..⟩
+      · exact ⟨_, plTelemetry_iso .., WQ.nil _⟩
       · split
-        · exact ⟨_, plExprange_iso ..⟩
+        · exact ⟨_, plExprange_iso .., WQ.nil _⟩
         · split
           · exact plQuit_iso ..
-          · exact ⟨_, plRest_iso w c str hidle⟩
+          · exact ⟨_, plRest_iso w c str hidle, WQ.nil _⟩
 
 /-- **one request line** -/
-theorem parseLine_iso (w : W) (c : Cli) (line : Bytes) : ∃ ext, CliIso w c (parseLine w c line) ext := by
+theorem parseLine_iso (w : W) (c : Cli) (line : Bytes) :
+    ∃ ext, CliIso w c (parseLine w c line) ext ∧ WQ (parseLine w c line) ext := by
   rw [ClientPf.parseLine_eq]; unfold ClientPf.parseLine'
   split
-  · exact ⟨[], CliIso.record w c _ rfl rfl (fun h => h) rfl ⟨_, rfl⟩⟩
+  · exact ⟨[], CliIso.record w c _ rfl rfl (fun h => h) rfl ⟨_, rfl⟩, WQ.nil _⟩
   · rename_i h
     exact plIdle_iso w c _ (by simpa using h)
 
@@ -569,20 +586,23 @@ theorem parseLine_iso (w : W) (c : Cli) (line : Bytes) : ∃ ext, CliIso w c (pa
 theorem dropFrom_iso (w : W) (c : Cli) (n : Nat) : CliIso w c (w, { c with fromBuf := c.fromBuf.drop n }) [] :=
   CliIso.record w c _ rfl rfl (fun h => h) rfl ⟨[], by simp⟩
 
-theorem runLines_iso : ∀ (ls : List Bytes) (w : W) (c : Cli), ∃ ext, CliIso w c (ClientPf.runLines w c ls) ext := by
+theorem runLines_iso : ∀ (ls : List Bytes) (w : W) (c : Cli),
+    ∃ ext, CliIso w c (ClientPf.runLines w c ls) ext ∧ WQ (ClientPf.runLines w c ls) ext := by
   intro ls
   induction ls with
-  | nil => intro w c; exact ⟨[], CliIso.refl w c⟩
+  | nil => intro w c; exact ⟨[], CliIso.refl w c, WQ.nil _⟩
   | cons l ls ih =>
     intro w c
     unfold ClientPf.runLines
     split
-    · exact ⟨[], CliIso.refl w c⟩
-    · obtain ⟨e1, h1⟩ := parseLine_iso w { c with fromBuf := c.fromBuf.drop l.length } l
-      obtain ⟨e2, h2⟩ := ih (parseLine w { c with fromBuf := c.fromBuf.drop l.length } l).1 (parseLine w { c with fromBuf := c.fromBuf.drop l.length } l).2
-      exact ⟨[] ++ e1 ++ e2, ((dropFrom_iso w c l.length).trans h1).trans h2⟩
+    · exact ⟨[], CliIso.refl w c, WQ.nil _⟩
+    · obtain ⟨e1, h1, q1⟩ := parseLine_iso w { c with fromBuf := c.fromBuf.drop l.length } l
+      obtain ⟨e2, h2, q2⟩ := ih (parseLine w { c with fromBuf := c.fromBuf.drop l.length } l).1 (parseLine w { c with fromBuf := c.fromBuf.drop l.length } l).2
+      refine ⟨[] ++ e1 ++ e2, ((dropFrom_iso w c l.length).trans h1).trans h2, ?_⟩
+      have q1' : WQ (parseLine w { c with fromBuf := c.fromBuf.drop l.length } l) ([] ++ e1) := by simpa using q1
+      exact WQ.trans q1' h2 q2
 
-theorem handleInput_iso (w : W) (c : Cli) : ∃ ext, CliIso w c (handleInput w c) ext := by
+theorem handleInput_iso (w : W) (c : Cli) : ∃ ext, CliIso w c (handleInput w c) ext ∧ WQ (handleInput w c) ext := by
   rw [ClientPf.handleInput_lines]; exact runLines_iso _ w c
 
 /-! ### one client's whole share of `cli_post_poll` -/
@@ -635,25 +655,1203 @@ theorem cpTail_iso (w : W) (c : Cli) (r : W × Cli) (ext : List Sys) (h : CliIso
         · cases hk
     · exact ⟨ext, hsome⟩
 
-/-- **the frame of `clientPass`** -/
-theorem clientPass_iso (w : W) (c : Cli) (e : Option FdEnv) : ∃ ext, PassIso w c (clientPass w c e) ext := by
+/-- `cpTail` hands the record through unchanged when the client survives -/
+theorem cpTail_some (r : W × Cli) (c' : Cli) (h : (ClientPf.cpTail r).2 = some c') : c' = r.2 := by
+  unfold ClientPf.cpTail at h
+  split at h
+  · simpa using h.symm
+  · split at h
+    · simp [ClientPf.cpDead] at h
+    · simpa using h.symm
+
+/-- **the frame of `clientPass`**; and when the descriptor is not reported writable, only the `quit` command writes to it -/
+theorem clientPass_iso (w : W) (c : Cli) (e : Option FdEnv) :
+    ∃ ext, PassIso w c (clientPass w c e) ext ∧
+      (ClientPf.cpRev c e &&& 2 = 0 → ∀ c', (clientPass w c e).2 = some c' → (∃ s ∈ ext, isWrite s = true) → c'.quit = true) := by
   rw [ClientPf.clientPass_eq]
   unfold ClientPf.clientPass'
   dsimp only
   split
-  · exact ⟨_, cpDead_iso w c⟩
-  · obtain ⟨e1, h1⟩ : ∃ ext, CliIso w c (if (ClientPf.cpRev c e &&& 1 != 0 || ClientPf.cpRev c e &&& 4 != 0) = true then ClientPf.cpRead w c e else (w, c)) ext := by
+  · exact ⟨_, cpDead_iso w c, fun _ c' h => by simp [ClientPf.cpDead] at h⟩
+  · obtain ⟨e1, h1, n1⟩ : ∃ ext, CliIso w c (if (ClientPf.cpRev c e &&& 1 != 0 || ClientPf.cpRev c e &&& 4 != 0) = true then ClientPf.cpRead w c e else (w, c)) ext ∧
+        ∀ s ∈ ext, isWrite s = false := by
       split
       · exact cpRead_iso w c e
-      · exact ⟨[], CliIso.refl w c⟩
+      · exact ⟨[], CliIso.refl w c, by simp⟩
     generalize (if (ClientPf.cpRev c e &&& 1 != 0 || ClientPf.cpRev c e &&& 4 != 0) = true then ClientPf.cpRead w c e else (w, c)) = r1 at h1 ⊢
-    obtain ⟨e2, h2⟩ : ∃ ext, CliIso w c (if (ClientPf.cpRev c e &&& 2 != 0) = true then handleWrite r1.1 r1.2 else r1) ext := by
+    obtain ⟨e2, h2, n2⟩ : ∃ ext, CliIso w c (if (ClientPf.cpRev c e &&& 2 != 0) = true then handleWrite r1.1 r1.2 else r1) ext ∧
+        (ClientPf.cpRev c e &&& 2 = 0 → ∀ s ∈ ext, isWrite s = false) := by
       split
-      · obtain ⟨e2, h2⟩ := handleWrite_iso r1.1 r1.2
-        exact ⟨_, h1.trans h2⟩
-      · exact ⟨_, h1⟩
+      · rename_i hpo
+        obtain ⟨e2, h2⟩ := handleWrite_iso r1.1 r1.2
+        exact ⟨_, h1.trans h2, fun h0 => by simp [h0] at hpo⟩
+      · exact ⟨_, h1, fun _ => n1⟩
     generalize (if (ClientPf.cpRev c e &&& 2 != 0) = true then handleWrite r1.1 r1.2 else r1) = r2 at h2 ⊢
-    obtain ⟨e3, h3⟩ := handleInput_iso r2.1 r2.2
-    exact cpTail_iso w c _ _ (h2.trans h3)
+    obtain ⟨e3, h3, q3⟩ := handleInput_iso r2.1 r2.2
+    obtain ⟨ext', hp⟩ := cpTail_iso w c _ _ (h2.trans h3)
+    have hext : ∀ c', (ClientPf.cpTail (handleInput r2.1 r2.2)).2 = some c' → ext' = e2 ++ e3 := by
+      intro c' hc'
+      have s1 := hp.sys
+      have s2 := (h2.trans h3).sys
+      have : (ClientPf.cpTail (handleInput r2.1 r2.2)).1 = (handleInput r2.1 r2.2).1 := by
+        unfold ClientPf.cpTail at hc' ⊢
+        split
+        · rfl
+        · split
+          · rename_i hq; rw [if_neg (by assumption), if_pos hq] at hc'; simp [ClientPf.cpDead] at hc'
+          · rfl
+      rw [this, s2] at s1
+      exact (List.append_cancel_left s1).symm
+    refine ⟨ext', hp, ?_⟩
+    intro h0 c' hc' ⟨s, hs, hw⟩
+    rw [hext c' hc'] at hs
+    rw [cpTail_some _ c' hc']
+    rcases List.mem_append.mp hs with hs | hs
+    · rw [n2 h0 s hs] at hw; cases hw
+    · exact q3 ⟨s, hs, hw⟩
+
+/-! ### the loop of `cli_post_poll`: the served record is written back, or the client is unlinked -/
+
+theorem kept_clients {w w' : W} (h : kept w' = kept w) : w'.clients = w.clients := by
+  simp only [kept, Prod.mk.injEq] at h; exact h.1
+theorem kept_nextId {w w' : W} (h : kept w' = kept w) : w'.nextId = w.nextId := by
+  simp only [kept, Prod.mk.injEq] at h; exact h.2.2.1
+
+/-- what one turn of the loop does, in terms of the frame of `clientPass` -/
+theorem cliStep_cases (envs : List FdEnv) (w : W) (c0 : Cli) :
+    (w.exited = true ∧ ClientPf.cliStep envs w c0 = w) ∨
+    (w.exited = false ∧ ∃ ext, PassIso w c0 (clientPass w c0 (envs.find? (·.fd == c0.fd))) ext ∧
+      ((∃ c, (clientPass w c0 (envs.find? (·.fd == c0.fd))).2 = some c ∧
+          ClientPf.cliStep envs w c0 = { (clientPass w c0 (envs.find? (·.fd == c0.fd))).1 with
+            clients := w.clients.map fun (x : Cli) => if x.id == c0.id then c else x }) ∨
+       ((clientPass w c0 (envs.find? (·.fd == c0.fd))).2 = none ∧
+          ClientPf.cliStep envs w c0 = { (clientPass w c0 (envs.find? (·.fd == c0.fd))).1 with
+            clients := w.clients.filter fun (x : Cli) => x.id != c0.id }))) := by
+  unfold ClientPf.cliStep
+  cases hex : w.exited with
+  | true => exact Or.inl ⟨rfl, by simp⟩
+  | false =>
+    refine Or.inr ⟨rfl, ?_⟩
+    obtain ⟨ext, h, _⟩ := clientPass_iso w c0 (envs.find? (·.fd == c0.fd))
+    refine ⟨ext, h, ?_⟩
+    have hcl := kept_clients h.kept
+    generalize clientPass w c0 (envs.find? (·.fd == c0.fd)) = r at h hcl ⊢
+    obtain ⟨w', r⟩ := r
+    have hcl' : w'.clients = w.clients := hcl
+    cases r with
+    | none => exact Or.inr ⟨rfl, by simp [hcl']⟩
+    | some c =>
+      have hid : c.id = c0.id := (h.alive c rfl).1
+      exact Or.inl ⟨c, rfl, by simp [hcl', hid]⟩
+
+theorem find_map_replace (xs : List Cli) (id g : Nat) (c : Cli) (hg : g ≠ id) (hc : c.id = id) :
+    (xs.map fun x => if x.id == id then c else x).find? (·.id == g) = xs.find? (·.id == g) := by
+  induction xs with
+  | nil => rfl
+  | cons x xs ih =>
+    rw [List.map_cons, List.find?_cons, List.find?_cons, ih]
+    by_cases hx : x.id = id
+    · have h1 : (c.id == g) = false := by rw [hc]; simpa using fun h => hg h.symm
+      have h2 : (x.id == g) = false := by rw [hx]; simpa using fun h => hg h.symm
+      have h3 : (x.id == id) = true := by simpa using hx
+      simp only [h3, if_true, h1, h2]
+    · have h3 : (x.id == id) = false := by simpa using hx
+      simp only [h3, Bool.false_eq_true, if_false]
+
+theorem find_filter_ne (xs : List Cli) (id g : Nat) (hg : g ≠ id) :
+    (xs.filter fun x => x.id != id).find? (·.id == g) = xs.find? (·.id == g) := by
+  induction xs with
+  | nil => rfl
+  | cons x xs ih =>
+    rw [List.filter_cons, List.find?_cons]
+    by_cases hx : x.id = id
+    · have h2 : (x.id == g) = false := by rw [hx]; simpa using fun h => hg h.symm
+      have h3 : (x.id != id) = false := by simpa using hx
+      simp only [h3, Bool.false_eq_true, if_false, h2, ih]
+    · have h3 : (x.id != id) = true := by simpa using hx
+      simp only [h3, if_true, List.find?_cons, ih]
+
+theorem find_filter_self (xs : List Cli) (id : Nat) : (xs.filter fun x => x.id != id).find? (·.id == id) = none := by
+  rw [List.find?_eq_none]
+  intro x hx
+  have := (List.mem_filter.mp hx).2
+  simpa using this
+
+/-- **one turn of the loop never touches another client's record** -/
+theorem cliStep_other (envs : List FdEnv) (w : W) (c0 : Cli) (g : Nat) (hg : g ≠ c0.id) :
+    cliRec (ClientPf.cliStep envs w c0) g = cliRec w g := by
+  rcases cliStep_cases envs w c0 with ⟨_, h⟩ | ⟨_, ext, hp, ⟨c, hc, h⟩ | ⟨_, h⟩⟩
+  · rw [h]
+  · rw [h]; exact find_map_replace w.clients c0.id g c hg (hp.alive c hc).1
+  · rw [h]; exact find_filter_ne w.clients c0.id g hg
+
+/-- the same by membership: a record with another id is still in the table, as it was -/
+theorem cliStep_mem (envs : List FdEnv) (w : W) (c0 x : Cli) (hx : x ∈ w.clients) (hne : x.id ≠ c0.id) :
+    x ∈ (ClientPf.cliStep envs w c0).clients := by
+  rcases cliStep_cases envs w c0 with ⟨_, h⟩ | ⟨_, ext, hp, ⟨c, hc, h⟩ | ⟨_, h⟩⟩
+  · rw [h]; exact hx
+  · rw [h]
+    exact List.mem_map.mpr ⟨x, hx, by simp [hne]⟩
+  · rw [h]
+    exact List.mem_filter.mpr ⟨hx, by simpa using hne⟩
+
+/-- a fold of the loop over clients none of which has id `g` leaves `g`'s record alone -/
+theorem foldl_cliStep_other (envs : List FdEnv) (g : Nat) (l : List Cli) (w : W) (h : ∀ c ∈ l, c.id ≠ g) :
+    cliRec (l.foldl (ClientPf.cliStep envs) w) g = cliRec w g := by
+  induction l generalizing w with
+  | nil => rfl
+  | cons c r ih =>
+    rw [List.foldl_cons, ih _ (fun x hx => h x (by simp [hx])), cliStep_other envs w c g (fun e => h c (by simp) e.symm)]
+
+/-! ## 5. departure -/
+
+/-- the client served in this turn of the loop is destroyed (`goto client_dead`: ERR/NVAL on its descriptor, or it has quit
+    / hit EOF and has no command in progress): no device, no arglist, no counter and no other client's record changes; its
+    own record is gone; only system calls on its own descriptor are logged -/
+theorem cliStep_departure (envs : List FdEnv) (w : W) (c0 : Cli) (hex : w.exited = false)
+    (h : (clientPass w c0 (envs.find? (·.fd == c0.fd))).2 = none) :
+    (ClientPf.cliStep envs w c0).devs = w.devs ∧ (ClientPf.cliStep envs w c0).store = w.store ∧
+    (ClientPf.cliStep envs w c0).alNext = w.alNext ∧ (ClientPf.cliStep envs w c0).nextId = w.nextId ∧
+    (ClientPf.cliStep envs w c0).exited = false ∧
+    (ClientPf.cliStep envs w c0).clients = w.clients.filter (fun x => x.id != c0.id) ∧
+    cliRec (ClientPf.cliStep envs w c0) c0.id = none ∧
+    (∀ g, g ≠ c0.id → cliRec (ClientPf.cliStep envs w c0) g = cliRec w g) ∧
+    ∃ ext, (ClientPf.cliStep envs w c0).sys = w.sys ++ ext ∧ (∀ s ∈ ext, sysFd s = some c0.fd) ∧
+      (∀ fd, fd ≠ c0.fd → capOf (ClientPf.cliStep envs w c0) fd = capOf w fd) := by
+  rcases cliStep_cases envs w c0 with ⟨hx, _⟩ | ⟨_, ext, hp, ⟨c, hc, _⟩ | ⟨_, e⟩⟩
+  · rw [hex] at hx; cases hx
+  · rw [h] at hc; cases hc
+  · obtain ⟨g1, g2, g3, g4⟩ := hp.gone h
+    refine ⟨by rw [e]; exact g1, by rw [e]; exact g2, by rw [e]; exact g3, by rw [e]; exact (kept_nextId hp.kept : _ = w.nextId), ?_, by rw [e],
+      ?_, fun g hg => cliStep_other envs w c0 g hg, ext, by rw [e]; exact hp.sys, hp.sysfd, ?_⟩
+    · rw [e]; rcases g4 with g4 | g4
+      · exact g4.trans hex
+      · exact g4
+    · rw [e]; exact find_filter_self w.clients c0.id
+    · intro fd hfd; rw [e]; exact hp.caps fd hfd
+
+/-- a completion for an id no client has is dropped (`_find_client` returns `NULL`) -/
+theorem actFinish_gone (w : W) (id : Nat) (err : ActErr) (name : Bytes) (h : cliRec w id = none) :
+    actFinish w id err name = (w, false) :=
+  Reply.actFinish_absent w id err name h
+
+/-! ## 3. one command per client -/
+
+/-- one request line: nothing is enqueued, or — only for a client without a command — exactly one `install` -/
+theorem parseLine_enq (w : W) (c : Cli) (line : Bytes) :
+    Enq c.id w (parseLine w c line).1 c.cmd (parseLine w c line).2.cmd := by
+  obtain ⟨_, h, _⟩ := parseLine_iso w c line
+  exact h.enq
+
+/-- while a command is in progress nothing this client sends reaches the queues -/
+theorem Enq.busy {cid : Nat} {w w' : W} {cmd cmd' : Option CmdC} (h : Enq cid w w' cmd cmd') (hb : cmd.isSome = true) :
+    w'.devs = w.devs ∧ w'.store = w.store ∧ w'.alNext = w.alNext ∧ cmd' = cmd := by
+  rcases h with h | ⟨hn, _⟩
+  · exact h
+  · rw [hn] at hb; cases hb
+
+/-- the actions an `install` appends carry the installing client's id, its telemetry flag and the new arglist id -/
+theorem installDev_acts (com : Nat) (bn : List Bytes) (cid : Nat) (tele : Bool) (al : Nat) (nd : Bytes × Dev) :
+    ∀ a ∈ (Enq.installDev com bn cid tele al nd).2.acts, a ∈ nd.2.acts ∨ (a.clientId = cid ∧ a.arglist = al ∧ a.telemetry = tele) := by
+  intro a ha
+  rw [(Enq.installDev_spec com bn cid tele al nd).2.2.1] at ha
+  rcases List.mem_append.mp ha with ha | ha
+  · exact Or.inl ha
+  · right
+    rcases Enq.newActs_cases ha with ⟨_, p, _, rfl⟩ | ⟨c, _, _, _, rfl⟩ | ⟨c, _, _, rfl⟩ <;> exact ⟨rfl, rfl, rfl⟩
+
+/-- the queues after whatever one client's requests did: every action is an old one or carries this client's id, and
+    in the latter case the arglist id that was fresh before -/
+theorem Enq.acts {cid : Nat} {w w' : W} {cmd cmd' : Option CmdC} (h : Enq cid w w' cmd cmd') :
+    ∀ nd' ∈ w'.devs, ∀ a ∈ nd'.2.acts, (∃ nd ∈ w.devs, a ∈ nd.2.acts) ∨ (a.clientId = cid ∧ a.arglist = w.alNext) := by
+  intro nd' hnd' a ha
+  rcases h with ⟨h1, _⟩ | ⟨_, k, args, com, bn, tele, _, _, _, _, h5⟩
+  · rw [h1] at hnd'; exact Or.inl ⟨nd', hnd', ha⟩
+  · rw [h5] at hnd'
+    obtain ⟨nd, hnd, rfl⟩ := List.mem_map.mp hnd'
+    rcases installDev_acts com bn cid tele w.alNext nd a ha with h | h
+    · exact Or.inl ⟨nd, hnd, h⟩
+    · exact Or.inr ⟨h.1, h.2.1⟩
+
+/-- ... and no old action is lost or changed -/
+theorem Enq.acts_kept {cid : Nat} {w w' : W} {cmd cmd' : Option CmdC} (h : Enq cid w w' cmd cmd') :
+    ∀ nd ∈ w.devs, ∀ a ∈ nd.2.acts, ∃ nd' ∈ w'.devs, nd'.1 = nd.1 ∧ a ∈ nd'.2.acts := by
+  intro nd hnd a ha
+  rcases h with ⟨h1, _⟩ | ⟨_, k, args, com, bn, tele, _, _, _, _, h5⟩
+  · rw [h1]; exact ⟨nd, hnd, rfl, ha⟩
+  · rw [h5]
+    refine ⟨Enq.installDev com bn cid tele w.alNext nd, List.mem_map.mpr ⟨nd, hnd, rfl⟩, rfl, ?_⟩
+    rw [(Enq.installDev_spec com bn cid tele w.alNext nd).2.2.1]
+    exact List.mem_append_left _ ha
+
+/-! ## the queue after one device's share of the pass: no action changes owner or arglist -/
+
+section Keys
+open Pm.Dev2
+
+/-- every queued action's (client id, arglist id) pair satisfies `S` -/
+def Keys (S : Nat → Nat → Prop) (acts : List Action) : Prop := ∀ a ∈ acts, S a.clientId a.arglist
+
+theorem Keys.nil {S : Nat → Nat → Prop} : Keys S [] := by intro a ha; cases ha
+
+theorem DevFrame.keys {S : Nat → Nat → Prop} {d d' : Dev} (h : DevFrame d d') (h0 : S 0 0) (hk : Keys S d.acts) :
+    Keys S d'.acts :=
+  h.acts (fun a => S a.clientId a.arglist) h0 (fun a ha => by rw [rewind_clientId, rewind_arglist]; exact ha) hk
+
+theorem failAll_keys (S : Nat → Nat → Prop) (h0 : S 0 0) (rest : List Action) (c : CS) (a : Action) (o : Oracle)
+    (out : List Pm.Dev2.Out) (tmo : Option Time) : Keys S (failAll rest c a o out tmo).1.dev.acts := by
+  have hr := reconnectDev_devFrame { c with dev := { c.dev with acts := [] } } tmo
+  unfold failAll
+  dsimp only
+  split
+  · generalize reconnectDev _ tmo = r at *
+    exact DevFrame.keys hr h0 Keys.nil
+  · exact Keys.nil
+
+theorem onTimeout_keys (S : Nat → Nat → Prop) (h0 : S 0 0) (rest : List Action) (c : CS) (a : Action) (o : Oracle)
+    (out : List Pm.Dev2.Out) (tmo : Option Time) (hk : Keys S c.dev.acts) :
+    Keys S (onTimeout rest c a o out tmo).1.dev.acts := by
+  unfold onTimeout
+  dsimp only
+  generalize (if a.telemetry = true then
+      (if (c.dev.conn != 2) = true then [Out.telemetry a.clientId (str "connect(dev): timeout")]
+       else teleMem a.clientId "recv(dev): '" c.dev.fromBuf) else []) = tele
+  split
+  · exact hk
+  · exact failAll_keys S h0 _ _ _ _ _ _
+
+theorem onRun_keys (S : Nat → Nat → Prop) (h0 : S 0 0) (k : CS → Oracle → List Pm.Dev2.Out → Option Time → PA)
+    (rest : List Action) (c : CS) (a : Action) (o : Oracle) (out : List Pm.Dev2.Out) (tmo : Option Time) (left : Time)
+    (ha : S a.clientId a.arglist) (hrest : Keys S rest)
+    (hk : ∀ c' o' out' tmo', Keys S c'.dev.acts → Keys S (k c' o' out' tmo').1.dev.acts) :
+    Keys S (onRun k rest c a o out tmo left).1.dev.acts := by
+  unfold onRun
+  dsimp only
+  have hIL := innerLoop_frame (fun _ => false) c.env.now (loopBound a) { c.dev with wake := none } a o []
+    (fun _ _ _ _ => rfl) (by simp)
+  generalize innerLoop c.env.now (loopBound a) { c.dev with wake := none } a o [] = r at *
+  have hadvc := advance_clientId r.act
+  have hadva := advance_arglist r.act
+  generalize advance r.act = a' at *
+  have hract : S r.act.clientId r.act.arglist := by rw [hIL.cid, hIL.al]; exact ha
+  have ha' : S a'.clientId a'.arglist := by rw [hadvc, hadva]; exact hract
+  have hcons : ∀ x : Action, S x.clientId x.arglist → Keys S (x :: rest) := by
+    intro x hx b hb
+    rcases List.mem_cons.mp hb with rfl | hb
+    · exact hx
+    · exact hrest b hb
+  split
+  · exact hcons _ hract
+  · split
+    · exact hcons _ hract
+    · split
+      · split
+        · exact hk _ _ _ _ hrest
+        · exact hk _ _ _ _ (hcons _ ha')
+      · exact failAll_keys S h0 _ _ _ _ _ _
+
+theorem processActionF_keys (S : Nat → Nat → Prop) (h0 : S 0 0) (fuel : Nat) (c : CS) (o : Oracle) (out : List Pm.Dev2.Out)
+    (tmo : Option Time) (hk : Keys S c.dev.acts) : Keys S (processActionF fuel c o out tmo).1.dev.acts := by
+  induction fuel generalizing c o out tmo with
+  | zero => unfold processActionF; exact hk
+  | succ n ih =>
+    unfold processActionF processActionBody
+    split
+    · exact hk
+    · split
+      · exact hk
+      · rename_i a0 rest hq
+        dsimp only
+        have hsc := stamp_clientId c.env.now a0
+        have hsa := stamp_arglist c.env.now a0
+        generalize stamp c.env.now a0 = a at *
+        have ha0 := hk a0 (by simp [hq])
+        have ha : S a.clientId a.arglist := by rw [hsc, hsa]; exact ha0
+        have hrest : Keys S rest := fun b hb => hk b (by simp [hq, hb])
+        split
+        · exact onTimeout_keys S h0 rest c a o out tmo hk
+        · split
+          · intro b hb
+            rcases List.mem_cons.mp hb with rfl | hb
+            · exact ha
+            · exact hrest b hb
+          · exact onRun_keys S h0 _ rest c a o out tmo _ ha hrest (fun c' o' out' tmo' h => ih c' o' out' tmo' h)
+
+/-- **`dev_post_poll` for one device never changes the owner or the arglist of a queued action**: every action in the queue
+    afterwards has the (client id, arglist id) pair of an action that was queued before, or `(0, 0)` (login, ping) -/
+theorem postPoll_keys (S : Nat → Nat → Prop) (h0 : S 0 0) (d : Dev) (env : Env) (o : Oracle) (hk : Keys S d.acts) :
+    Keys S (postPoll d env o).1.dev.acts := by
+  rw [postPoll_eq]
+  unfold postPoll'
+  have h1 := ppReady_devFrame d env
+  generalize ppReady d env = r at *
+  dsimp only
+  split
+  · exact DevFrame.keys h1 h0 hk
+  · have h2 := ppReconnect_devFrame r.1 r.2
+    generalize ppReconnect r.1 r.2 = r2 at *
+    have hk2 : Keys S r2.1.dev.acts := DevFrame.keys (h1.trans h2) h0 hk
+    have h3 := (ppPing_frame r2.1 env.now r2.2).2.2.2
+    have hk3 : Keys S (ppPing r2.1 env.now r2.2).1.dev.acts := by
+      rcases h3 with h | h
+      · rw [h]; exact hk2
+      · rw [h]; intro a ha
+        rcases List.mem_append.mp ha with ha | ha
+        · exact hk2 a ha
+        · simp only [List.mem_singleton] at ha; subst ha; exact h0
+    generalize ppPing r2.1 env.now r2.2 = r3 at *
+    unfold processAction
+    exact processActionF_keys S h0 _ r3.1 o [] r3.2 hk3
+
+end Keys
+
+/-- the entry device `nd` leaves in the processed list: its queue holds only actions with a (client id, arglist id) pair
+    that was in the queue before, or `(0, 0)` -/
+theorem stepped_keys (S : Nat → Nat → Prop) (h0 : S 0 0) (p : PassIn) (a : DevAcc) (nd : Bytes × Dev) (hk : Keys S nd.2.acts) :
+    Keys S (stepped p a nd).2.acts := by
+  unfold stepped
+  dsimp only
+  split
+  · exact hk
+  · exact postPoll_keys S h0 _ _ _ hk
+
+/-! ## 2. the id discipline -/
+
+/-- the ids of the live clients, in table order -/
+def ids (w : W) : List Nat := w.clients.map (·.id)
+
+/-- the live clients' ids are pairwise distinct, positive (`0` is the id of the internal login/ping actions) and below the
+    counter `nextId`; every queued action carries an id below the counter (so the id the next client gets is carried by
+    no action — not even by one a departed client left behind) -/
+structure IdsFresh (w : W) : Prop where
+  nodup : (ids w).Nodup
+  pos : ∀ i ∈ ids w, 0 < i
+  below : ∀ i ∈ ids w, i < w.nextId
+  acts : ∀ nd ∈ w.devs, ∀ a ∈ nd.2.acts, a.clientId < w.nextId
+  one : 0 < w.nextId
+
+theorem IdsFresh.transfer {w w' : W} (h : IdsFresh w) (hids : (ids w').Sublist (ids w)) (hn : w'.nextId = w.nextId)
+    (hacts : ∀ nd' ∈ w'.devs, ∀ a ∈ nd'.2.acts, a.clientId < w'.nextId) : IdsFresh w' :=
+  ⟨h.nodup.sublist hids, fun i hi => h.pos i (hids.subset hi), fun i hi => hn ▸ h.below i (hids.subset hi), hacts, hn ▸ h.one⟩
+
+theorem IdsFresh.congr {w w' : W} (h : IdsFresh w) (h1 : w'.clients = w.clients) (h2 : w'.nextId = w.nextId)
+    (h3 : w'.devs = w.devs) : IdsFresh w' :=
+  h.transfer (by unfold ids; rw [h1]; exact List.Sublist.refl _) h2 (by rw [h3, h2]; exact h.acts)
+
+/-- `UniqueIds` of the C05 statements follows -/
+theorem IdsFresh.unique {w : W} (h : IdsFresh w) : UniqueIds w.clients := Pm.Daemon.Ex.uniqB _ h.nodup
+
+/-- under the invariant the table holds one record per id: a member is the record `_find_client` finds -/
+theorem IdsFresh.cliRec_of_mem {w : W} (h : IdsFresh w) {c : Cli} (hc : c ∈ w.clients) : cliRec w c.id = some c := by
+  unfold cliRec
+  cases hf : w.clients.find? (·.id == c.id) with
+  | none =>
+    have := List.find?_eq_none.mp hf c hc
+    simp at this
+  | some x =>
+    have hx := List.mem_of_find?_eq_some hf
+    have hid : x.id = c.id := by simpa using List.find?_some hf
+    rw [h.unique x hx c hc hid]
+
+theorem cliRec_mem {w : W} {g : Nat} {c : Cli} (h : cliRec w g = some c) : c ∈ w.clients ∧ c.id = g :=
+  ⟨List.mem_of_find?_eq_some h, by simpa using List.find?_some h⟩
+
+/-- accepting a connection: the new client gets the counter's value, the counter moves on -/
+theorem cliAccept_ids (w : W) (acc : Nat) (h : IdsFresh w) : IdsFresh (ClientPf.cliAccept w acc) := by
+  unfold ClientPf.cliAccept
+  split
+  · refine ⟨?_, ?_, ?_, ?_, ?_⟩
+    · show ((w.clients ++ [ClientPf.newClient w]).map (·.id)).Nodup
+      rw [List.map_append, List.nodup_append]
+      refine ⟨h.nodup, by simp, ?_⟩
+      intro a ha b hb
+      simp only [List.map_cons, List.map_nil, List.mem_singleton, ClientPf.newClient] at hb
+      have := h.below a ha
+      omega
+    · intro i hi
+      have hi : i ∈ (w.clients ++ [ClientPf.newClient w]).map (·.id) := hi
+      rw [List.map_append, List.mem_append] at hi
+      rcases hi with hi | hi
+      · exact h.pos i hi
+      · simp only [List.map_cons, List.map_nil, List.mem_singleton, ClientPf.newClient] at hi
+        rw [hi]; exact h.one
+    · intro i hi
+      have hi : i ∈ (w.clients ++ [ClientPf.newClient w]).map (·.id) := hi
+      rw [List.map_append, List.mem_append] at hi
+      show i < w.nextId + 1
+      rcases hi with hi | hi
+      · exact Nat.lt_succ_of_lt (h.below i hi)
+      · simp only [List.map_cons, List.map_nil, List.mem_singleton, ClientPf.newClient] at hi
+        omega
+    · intro nd hnd a ha
+      exact Nat.lt_succ_of_lt (h.acts nd hnd a ha)
+    · exact Nat.succ_pos _
+  · split
+    · exact ⟨h.nodup, h.pos, fun i hi => Nat.lt_succ_of_lt (h.below i hi),
+        fun nd hnd a ha => Nat.lt_succ_of_lt (h.acts nd hnd a ha), Nat.succ_pos _⟩
+    · exact h
+
+/-- the id handed out by `accept` is new: no live client has it and no queued action carries it -/
+theorem newClient_fresh (w : W) (h : IdsFresh w) :
+    (∀ c ∈ w.clients, c.id ≠ (ClientPf.newClient w).id) ∧
+    (∀ nd ∈ w.devs, ∀ a ∈ nd.2.acts, a.clientId ≠ (ClientPf.newClient w).id) ∧ (ClientPf.newClient w).id ≠ 0 := by
+  refine ⟨?_, ?_, ?_⟩
+  · intro c hc
+    have := h.below c.id (List.mem_map.mpr ⟨c, hc, rfl⟩)
+    simp only [ClientPf.newClient]; omega
+  · intro nd hnd a ha
+    have := h.acts nd hnd a ha
+    simp only [ClientPf.newClient]; omega
+  · have := h.one
+    simp only [ClientPf.newClient]; omega
+
+theorem ids_map_replace (xs : List Cli) (id : Nat) (c : Cli) (hc : c.id = id) :
+    (xs.map fun x => if x.id == id then c else x).map (·.id) = xs.map (·.id) := by
+  rw [List.map_map]
+  apply List.map_congr_left
+  intro x _
+  by_cases hx : x.id = id
+  · simp [hx, hc]
+  · simp [hx]
+
+/-- one turn of the client loop -/
+theorem cliStep_ids (envs : List FdEnv) (w : W) (c0 : Cli) (h : IdsFresh w) (h0 : c0.id < w.nextId) :
+    IdsFresh (ClientPf.cliStep envs w c0) ∧ (ClientPf.cliStep envs w c0).nextId = w.nextId := by
+  rcases cliStep_cases envs w c0 with ⟨_, e⟩ | ⟨_, ext, hp, ⟨c, hc, e⟩ | ⟨hn, e⟩⟩
+  · rw [e]; exact ⟨h, rfl⟩
+  · obtain ⟨hid, _, _, henq, _⟩ := hp.alive c hc
+    have hnx := kept_nextId hp.kept
+    rw [e]
+    refine ⟨h.transfer ?_ hnx ?_, hnx⟩
+    · show List.Sublist ((w.clients.map fun x => if x.id == c0.id then c else x).map (·.id)) (ids w)
+      rw [ids_map_replace _ _ _ hid]; exact List.Sublist.refl _
+    · intro nd' hnd' a ha
+      show a.clientId < (clientPass w c0 (envs.find? (·.fd == c0.fd))).1.nextId
+      rw [hnx]
+      rcases henq.acts nd' hnd' a ha with ⟨nd, hnd, ha⟩ | ⟨hcid, _⟩
+      · exact h.acts nd hnd a ha
+      · rw [hcid]; exact h0
+  · obtain ⟨g1, _, _, _⟩ := hp.gone hn
+    have hnx := kept_nextId hp.kept
+    rw [e]
+    refine ⟨h.transfer ?_ hnx ?_, hnx⟩
+    · exact List.Sublist.map _ List.filter_sublist
+    · intro nd' hnd' a ha
+      show a.clientId < (clientPass w c0 (envs.find? (·.fd == c0.fd))).1.nextId
+      rw [hnx]
+      exact h.acts nd' (g1 ▸ hnd') a ha
+
+theorem foldl_cliStep_ids (envs : List FdEnv) (l : List Cli) (w : W) (h : IdsFresh w) (hl : ∀ c ∈ l, c.id < w.nextId) :
+    IdsFresh (l.foldl (ClientPf.cliStep envs) w) := by
+  induction l generalizing w with
+  | nil => exact h
+  | cons c r ih =>
+    rw [List.foldl_cons]
+    obtain ⟨h1, h2⟩ := cliStep_ids envs w c h (hl c (by simp))
+    exact ih _ h1 (fun x hx => by rw [h2]; exact hl x (by simp [hx]))
+
+/-- **`cli_post_poll` keeps the id discipline** -/
+theorem cliPostPoll_ids (w : W) (acc : Nat) (envs : List FdEnv) (h : IdsFresh w) : IdsFresh (cliPostPoll w acc envs) := by
+  rw [ClientPf.cliPostPoll_eq]
+  have h1 : IdsFresh { w with sys := [], caps := envs.map fun (e : FdEnv) => (e.fd, e.cap) } := h.congr rfl rfl rfl
+  have h2 := cliAccept_ids _ acc h1
+  exact foldl_cliStep_ids envs _ _ h2 (fun c hc => h2.below c.id (List.mem_map.mpr ⟨c, hc, rfl⟩))
+
+/-! ### the device phase -/
+
+/-- the world as it stands when the device phase has processed `a.devs` and still has `rest` to do (`daemonPass` writes the
+    device list back only at the end) -/
+def worldAt (a : DevAcc) (rest : List (Bytes × Dev)) : W := { a.w with devs := a.devs ++ rest }
+
+theorem ids_updCli (w : W) (id : Nat) (f : Cli → Cli) (hf : ∀ c, (f c).id = c.id) : ids (updCli w id f) = ids w := by
+  unfold ids updCli
+  dsimp only
+  rw [List.map_map]
+  apply List.map_congr_left
+  intro c _
+  by_cases hc : c.id = id
+  · simp [hc, hf]
+  · simp [hc]
+
+theorem applyOut_ids (name : Bytes) (acc : W × List String) (o : DOut) : ids (applyOut name acc o).1 = ids acc.1 := by
+  rcases applyOut_upd name acc o with e | ⟨id, f, _, hf, e⟩
+  · rw [e]
+  · rw [e, ids_updCli _ _ _ hf]
+
+theorem applyOuts_ids (w : W) (name : Bytes) (outs : List DOut) : ids (applyOuts w name outs).1 = ids w := by
+  rw [Pm.Daemon.applyOuts_eq]
+  have : ∀ (acc : W × List String), ids (outs.foldl (applyOut name) acc).1 = ids acc.1 := by
+    induction outs with
+    | nil => intro acc; rfl
+    | cons o r ih => intro acc; rw [List.foldl_cons, ih, applyOut_ids]
+  exact this _
+
+theorem devPass_ids_eq (p : PassIn) (a : DevAcc) (nd : Bytes × Dev) :
+    ids (devPass p a nd).w = ids a.w ∧ (devPass p a nd).w.nextId = a.w.nextId ∧ (devPass p a nd).w.alNext = a.w.alNext := by
+  cases hd : a.dead with
+  | true => rw [devPass_dead _ _ _ hd]; exact ⟨rfl, rfl, rfl⟩
+  | false =>
+    rw [devPass_w p a nd hd]
+    have h2 := applyOuts_sans (afterStep a.w (devStep p a.w a.oracle nd).1) nd.1 (devStep p a.w a.oracle nd).2.2.1
+    refine ⟨by rw [applyOuts_ids]; rfl, ?_, ?_⟩
+    · have := congrArg W.nextId h2
+      simpa [sansClients, afterStep] using this
+    · have := congrArg W.alNext h2
+      simpa [sansClients, afterStep] using this
+
+/-- the queues as they stand after device `nd`'s share: processed devices, `nd`'s entry, devices to come -/
+theorem worldAt_devPass_devs (p : PassIn) (a : DevAcc) (nd : Bytes × Dev) (rest : List (Bytes × Dev)) :
+    (worldAt (devPass p a nd) rest).devs = a.devs ++ stepped p a nd :: rest := by
+  show (devPass p a nd).devs ++ rest = _
+  rw [devPass_devs_eq]; simp
+
+/-- every action queued anywhere after `nd`'s share has the (client id, arglist id) pair of an action queued before, or
+    `(0, 0)` -/
+theorem worldAt_devPass_keys (S : Nat → Nat → Prop) (h0 : S 0 0) (p : PassIn) (a : DevAcc) (nd : Bytes × Dev)
+    (rest : List (Bytes × Dev)) (h : ∀ x ∈ (worldAt a (nd :: rest)).devs, Keys S x.2.acts) :
+    ∀ x ∈ (worldAt (devPass p a nd) rest).devs, Keys S x.2.acts := by
+  intro x hx
+  rw [worldAt_devPass_devs] at hx
+  have h' : ∀ x ∈ a.devs ++ nd :: rest, Keys S x.2.acts := h
+  rcases List.mem_append.mp hx with hx | hx
+  · exact h' x (List.mem_append_left _ hx)
+  · rcases List.mem_cons.mp hx with rfl | hx
+    · exact stepped_keys S h0 p a nd (h' nd (by simp))
+    · exact h' x (by simp [hx])
+
+theorem devPass_idsFresh (p : PassIn) (a : DevAcc) (nd : Bytes × Dev) (rest : List (Bytes × Dev))
+    (h : IdsFresh (worldAt a (nd :: rest))) : IdsFresh (worldAt (devPass p a nd) rest) := by
+  obtain ⟨h1, h2, _⟩ := devPass_ids_eq p a nd
+  refine h.transfer (by show (ids (devPass p a nd).w).Sublist (ids a.w); rw [h1]; exact List.Sublist.refl _) h2 ?_
+  intro x hx b hb
+  have hn : (worldAt (devPass p a nd) rest).nextId = a.w.nextId := h2
+  rw [hn]
+  exact worldAt_devPass_keys (fun cid _ => cid < a.w.nextId) h.one p a nd rest (fun y hy b hb => h.acts y hy b hb) x hx b hb
+
+theorem foldl_devPass_idsFresh (p : PassIn) (l : List (Bytes × Dev)) (a : DevAcc) (h : IdsFresh (worldAt a l)) :
+    IdsFresh (worldAt (l.foldl (devPass p) a) []) := by
+  induction l generalizing a with
+  | nil => exact h
+  | cons nd r ih => rw [List.foldl_cons]; exact ih _ (devPass_idsFresh p a nd r h)
+
+theorem worldAt_acc0 (w0 : W) : worldAt (acc0 w0) w0.devs = w0 := by
+  simp [worldAt, acc0]
+
+/-- **a whole pass keeps the id discipline** -/
+theorem daemonPass_ids (w : W) (p : PassIn) (h : IdsFresh w) : IdsFresh (daemonPass w p).1 := by
+  rw [daemonPass_fst]
+  have h0 := cliPostPoll_ids w p.acc p.envs h
+  dsimp only
+  split
+  · exact h0
+  · have := foldl_devPass_idsFresh p (cliPostPoll w p.acc p.envs).devs (acc0 (cliPostPoll w p.acc p.envs))
+      (by rw [worldAt_acc0]; exact h0)
+    exact this.congr rfl rfl (by simp [worldAt])
+
+/-! ## 4. the scope of a result: arglists -/
+
+/-- the arglist discipline.  `cmds`/`acts`: every arglist id in use by a client's command or by a client's action is below
+    the counter `alNext` (so the id the next command gets is new); `owned`: an action carrying the arglist id of client
+    `g`'s command is `g`'s action; `apart`: two clients' commands have different arglist ids; `internal`: the login and ping
+    actions (client id `0`) carry the dummy arglist id `0`. -/
+structure ArgScope (w : W) : Prop where
+  cmds : ∀ g c k, cliRec w g = some c → c.cmd = some k → k.al < w.alNext
+  acts : ∀ nd ∈ w.devs, ∀ a ∈ nd.2.acts, a.clientId ≠ 0 → a.arglist < w.alNext
+  owned : ∀ g c k, cliRec w g = some c → c.cmd = some k → ∀ nd ∈ w.devs, ∀ a ∈ nd.2.acts, a.clientId ≠ 0 →
+    a.arglist = k.al → a.clientId = g
+  apart : ∀ g g' c c' k k', cliRec w g = some c → cliRec w g' = some c' → c.cmd = some k → c'.cmd = some k' →
+    k.al = k'.al → g = g'
+  internal : ∀ nd ∈ w.devs, ∀ a ∈ nd.2.acts, a.clientId = 0 → a.arglist = 0
+
+/-- a step that creates no arglist: every command afterwards is (up to its counters) a command of the same client before,
+    every action afterwards has the owner and arglist of an action before (or is internal) -/
+theorem ArgScope.transfer {w w' : W} (h : ArgScope w)
+    (hcli : ∀ g c' k', cliRec w' g = some c' → c'.cmd = some k' → ∃ c k, cliRec w g = some c ∧ c.cmd = some k ∧ k.al = k'.al)
+    (hal : w'.alNext = w.alNext)
+    (hacts : ∀ nd' ∈ w'.devs, ∀ a' ∈ nd'.2.acts,
+      (a'.clientId = 0 ∧ a'.arglist = 0) ∨ ∃ nd ∈ w.devs, ∃ a ∈ nd.2.acts, a.clientId = a'.clientId ∧ a.arglist = a'.arglist) :
+    ArgScope w' := by
+  refine ⟨?_, ?_, ?_, ?_, ?_⟩
+  · intro g c' k' hc' hk'
+    obtain ⟨c, k, hc, hk, e⟩ := hcli g c' k' hc' hk'
+    rw [hal, ← e]; exact h.cmds g c k hc hk
+  · intro nd' hnd' a' ha' hne
+    rcases hacts nd' hnd' a' ha' with ⟨h0, _⟩ | ⟨nd, hnd, a, ha, e1, e2⟩
+    · exact absurd h0 hne
+    · rw [hal, ← e2]; exact h.acts nd hnd a ha (by rw [e1]; exact hne)
+  · intro g c' k' hc' hk' nd' hnd' a' ha' hne hal'
+    obtain ⟨c, k, hc, hk, e⟩ := hcli g c' k' hc' hk'
+    rcases hacts nd' hnd' a' ha' with ⟨h0, _⟩ | ⟨nd, hnd, a, ha, e1, e2⟩
+    · exact absurd h0 hne
+    · rw [← e1]; exact h.owned g c k hc hk nd hnd a ha (by rw [e1]; exact hne) (by rw [e2, hal', e])
+  · intro g g' c1 c2 k1 k2 hc1 hc2 hk1 hk2 e
+    obtain ⟨d1, l1, hd1, hl1, e1⟩ := hcli g c1 k1 hc1 hk1
+    obtain ⟨d2, l2, hd2, hl2, e2⟩ := hcli g' c2 k2 hc2 hk2
+    exact h.apart g g' d1 d2 l1 l2 hd1 hd2 hl1 hl2 (by rw [e1, e2, e])
+  · intro nd' hnd' a' ha' h0
+    rcases hacts nd' hnd' a' ha' with ⟨_, h1⟩ | ⟨nd, hnd, a, ha, e1, e2⟩
+    · exact h1
+    · rw [← e2]; exact h.internal nd hnd a ha (by rw [e1]; exact h0)
+
+theorem cliRec_append_new (xs : List Cli) (n : Cli) (g : Nat) (c : Cli) (k : CmdC) (hn : n.cmd = none)
+    (h : (xs ++ [n]).find? (·.id == g) = some c) (hk : c.cmd = some k) : xs.find? (·.id == g) = some c := by
+  rw [List.find?_append] at h
+  cases hx : xs.find? (·.id == g) with
+  | some x => rw [hx] at h; simpa using h
+  | none =>
+    rw [hx] at h
+    simp only [Option.none_or] at h
+    have := List.mem_of_find?_eq_some h
+    simp only [List.mem_singleton] at this
+    subst this
+    rw [hn] at hk; cases hk
+
+theorem cliAccept_scope (w : W) (acc : Nat) (h : ArgScope w) : ArgScope (ClientPf.cliAccept w acc) := by
+  unfold ClientPf.cliAccept
+  split
+  · refine h.transfer ?_ rfl (fun nd hnd a ha => Or.inr ⟨nd, hnd, a, ha, rfl, rfl⟩)
+    intro g c' k' hc' hk'
+    exact ⟨c', k', cliRec_append_new w.clients (ClientPf.newClient w) g c' k' rfl hc' hk', hk', rfl⟩
+  · split
+    · exact h.transfer (fun g c' k' hc' hk' => ⟨c', k', hc', hk', rfl⟩) rfl (fun nd hnd a ha => Or.inr ⟨nd, hnd, a, ha, rfl, rfl⟩)
+    · exact h
+
+theorem find_map_replace_self (xs : List Cli) (id : Nat) (c x : Cli) (hc : c.id = id) (hx : xs.find? (·.id == id) = some x) :
+    (xs.map fun y => if y.id == id then c else y).find? (·.id == id) = some c := by
+  induction xs with
+  | nil => cases hx
+  | cons y ys ih =>
+    rw [List.map_cons, List.find?_cons]
+    by_cases hy : y.id = id
+    · have h3 : (y.id == id) = true := by simpa using hy
+      have h4 : (c.id == id) = true := by simpa using hc
+      simp only [h3, if_true, h4]
+    · have h3 : (y.id == id) = false := by simpa using hy
+      rw [List.find?_cons, h3] at hx
+      simp only [h3, Bool.false_eq_true, if_false]
+      exact ih hx
+
+/-- one turn of the client loop, for a client whose record is the one in the table -/
+theorem cliStep_scope (envs : List FdEnv) (w : W) (c0 : Cli) (h : ArgScope w) (hc0 : cliRec w c0.id = some c0)
+    (hpos : c0.id ≠ 0) : ArgScope (ClientPf.cliStep envs w c0) := by
+  rcases cliStep_cases envs w c0 with ⟨_, e⟩ | ⟨_, ext, hp, ⟨c, hc, e⟩ | ⟨hn, e⟩⟩
+  · rw [e]; exact h
+  · obtain ⟨hid, _, _, henq, _⟩ := hp.alive c hc
+    have hself : cliRec (ClientPf.cliStep envs w c0) c0.id = some c := by
+      rw [e]; exact find_map_replace_self w.clients c0.id c c0 hid hc0
+    have hoth : ∀ g, g ≠ c0.id → cliRec (ClientPf.cliStep envs w c0) g = cliRec w g := fun g hg => cliStep_other envs w c0 g hg
+    have hdevs : (ClientPf.cliStep envs w c0).devs = (clientPass w c0 (envs.find? (·.fd == c0.fd))).1.devs := by rw [e]
+    have halx : (ClientPf.cliStep envs w c0).alNext = (clientPass w c0 (envs.find? (·.fd == c0.fd))).1.alNext := by rw [e]
+    generalize ClientPf.cliStep envs w c0 = w' at *
+    generalize (clientPass w c0 (envs.find? (·.fd == c0.fd))).1 = w1 at *
+    rcases henq with ⟨a1, _, a3, a4⟩ | ⟨hidle, k, args, com, bn, tele, b1, b2, b3, b4, b5⟩
+    · -- nothing enqueued
+      refine h.transfer ?_ (halx.trans a3) ?_
+      · intro g c' k' hc' hk'
+        by_cases hg : g = c0.id
+        · subst hg
+          rw [hself] at hc'; cases hc'
+          exact ⟨c0, k', hc0, a4 ▸ hk', rfl⟩
+        · rw [hoth g hg] at hc'; exact ⟨c', k', hc', hk', rfl⟩
+      · intro nd hnd a ha
+        rw [hdevs, a1] at hnd
+        exact Or.inr ⟨nd, hnd, a, ha, rfl, rfl⟩
+    · -- one `install`
+      have hacts := Enq.acts (Or.inr ⟨hidle, k, args, com, bn, tele, b1, b2, b3, b4, b5⟩ : Enq c0.id w w1 c0.cmd c.cmd)
+      have hrec : ∀ g c' k', cliRec w' g = some c' → c'.cmd = some k' →
+          (g = c0.id ∧ k'.al = w.alNext) ∨ (g ≠ c0.id ∧ cliRec w g = some c' ∧ k'.al < w.alNext) := by
+        intro g c' k' hc' hk'
+        by_cases hg : g = c0.id
+        · subst hg
+          rw [hself] at hc'; cases hc'
+          rw [b1] at hk'; cases hk'
+          exact Or.inl ⟨rfl, b2⟩
+        · rw [hoth g hg] at hc'
+          exact Or.inr ⟨hg, hc', h.cmds g c' k' hc' hk'⟩
+      have hal : w'.alNext = w.alNext + 1 := halx.trans b3
+      refine ⟨?_, ?_, ?_, ?_, ?_⟩
+      · intro g c' k' hc' hk'
+        rw [hal]
+        rcases hrec g c' k' hc' hk' with ⟨_, e1⟩ | ⟨_, _, e1⟩ <;> omega
+      · intro nd' hnd' a ha hne
+        rw [hal]
+        rw [hdevs] at hnd'
+        rcases hacts nd' hnd' a ha with ⟨nd, hnd, ha⟩ | ⟨_, e1⟩
+        · exact Nat.lt_succ_of_lt (h.acts nd hnd a ha hne)
+        · omega
+      · intro g c' k' hc' hk' nd' hnd' a ha hne hal'
+        rw [hdevs] at hnd'
+        rcases hrec g c' k' hc' hk' with ⟨e0, e1⟩ | ⟨_, e0, e1⟩
+        · rcases hacts nd' hnd' a ha with ⟨nd, hnd, ha⟩ | ⟨e2, _⟩
+          · have := h.acts nd hnd a ha hne; omega
+          · rw [e2, e0]
+        · rcases hacts nd' hnd' a ha with ⟨nd, hnd, ha⟩ | ⟨_, e2⟩
+          · exact h.owned g c' k' e0 hk' nd hnd a ha hne hal'
+          · omega
+      · intro g g' c1 c2 k1 k2 hc1 hc2 hk1 hk2 ee
+        rcases hrec g c1 k1 hc1 hk1 with ⟨e0, e1⟩ | ⟨_, e0, e1⟩
+        · rcases hrec g' c2 k2 hc2 hk2 with ⟨f0, f1⟩ | ⟨_, f0, f1⟩
+          · rw [e0, f0]
+          · omega
+        · rcases hrec g' c2 k2 hc2 hk2 with ⟨f0, f1⟩ | ⟨_, f0, f1⟩
+          · omega
+          · exact h.apart g g' c1 c2 k1 k2 e0 f0 hk1 hk2 ee
+      · intro nd' hnd' a ha h0
+        rw [hdevs] at hnd'
+        rcases hacts nd' hnd' a ha with ⟨nd, hnd, ha⟩ | ⟨e2, _⟩
+        · exact h.internal nd hnd a ha h0
+        · rw [e2] at h0; exact absurd h0 hpos
+  · obtain ⟨g1, _, g3, _⟩ := hp.gone hn
+    refine h.transfer ?_ (by rw [e]; exact g3) ?_
+    · intro g c' k' hc' hk'
+      by_cases hg : g = c0.id
+      · subst hg
+        rw [e] at hc'
+        have : (w.clients.filter fun x => x.id != c0.id).find? (·.id == c0.id) = some c' := hc'
+        rw [find_filter_self] at this; cases this
+      · rw [cliStep_other envs w c0 g hg] at hc'; exact ⟨c', k', hc', hk', rfl⟩
+    · intro nd hnd a ha
+      rw [e] at hnd
+      have hnd : nd ∈ (clientPass w c0 (envs.find? (·.fd == c0.fd))).1.devs := hnd
+      rw [g1] at hnd
+      exact Or.inr ⟨nd, hnd, a, ha, rfl, rfl⟩
+
+/-- both invariants together -/
+def Iso (w : W) : Prop := IdsFresh w ∧ ArgScope w
+
+theorem foldl_cliStep_iso (envs : List FdEnv) (l : List Cli) (w : W) (h : Iso w) (hl : ∀ c ∈ l, c ∈ w.clients)
+    (hnd : (l.map (·.id)).Nodup) : Iso (l.foldl (ClientPf.cliStep envs) w) := by
+  induction l generalizing w with
+  | nil => exact h
+  | cons c r ih =>
+    rw [List.foldl_cons]
+    have hc := hl c (by simp)
+    have hidm : c.id ∈ ids w := List.mem_map.mpr ⟨c, hc, rfl⟩
+    have h1 := cliStep_ids envs w c h.1 (h.1.below c.id hidm)
+    have h2 := cliStep_scope envs w c h.2 (h.1.cliRec_of_mem hc) (Nat.ne_of_gt (h.1.pos c.id hidm))
+    rw [List.map_cons, List.nodup_cons] at hnd
+    refine ih _ ⟨h1.1, h2⟩ ?_ hnd.2
+    intro x hx
+    refine cliStep_mem envs w c x (hl x (by simp [hx])) ?_
+    intro e
+    exact hnd.1 (e ▸ List.mem_map.mpr ⟨x, hx, rfl⟩)
+
+theorem cliPostPoll_iso (w : W) (acc : Nat) (envs : List FdEnv) (h : Iso w) : Iso (cliPostPoll w acc envs) := by
+  rw [ClientPf.cliPostPoll_eq]
+  have h1 : Iso { w with sys := [], caps := envs.map fun (e : FdEnv) => (e.fd, e.cap) } :=
+    ⟨h.1.congr rfl rfl rfl, ⟨h.2.cmds, h.2.acts, h.2.owned, h.2.apart, h.2.internal⟩⟩
+  have h2 : Iso (ClientPf.cliAccept _ acc) := ⟨cliAccept_ids _ acc h1.1, cliAccept_scope _ acc h1.2⟩
+  exact foldl_cliStep_iso envs _ _ h2 (fun c hc => hc) h2.1.nodup
+
+/-! ### callbacks never give a client a command, and never move a command to another arglist -/
+
+theorem actFinish_cmd (w : W) (id : Nat) (e : ActErr) (name : Bytes) (g : Nat) (c' : Cli) (k' : CmdC)
+    (hc' : cliRec (actFinish w id e name).1 g = some c') (hk' : c'.cmd = some k') :
+    ∃ c k, cliRec w g = some c ∧ c.cmd = some k ∧ k.al = k'.al := by
+  by_cases hid : id = g
+  · subst hid
+    by_cases hsame : (actFinish w id e name).1 = w
+    · rw [hsame] at hc'; exact ⟨c', k', hc', hk', rfl⟩
+    · cases hq : cliRec w id with
+      | none => exact absurd (by rw [Reply.actFinish_absent w id e name hq]) hsame
+      | some c =>
+        cases hcmd : c.cmd with
+        | none => exact absurd (by rw [Reply.actFinish_nocmd w id e name c hq hcmd]) hsame
+        | some k =>
+          by_cases hp : k.pending = 1
+          · cases hr : finalReply c.exprange (Reply.withStore w k e) with
+            | none => exact absurd (by rw [Reply.actFinish_last_abort w id e name c k hq hcmd hp hr]) hsame
+            | some r =>
+              have h2 : cliRec (actFinish w id e name).1 id = some { c with cmd := none, toBuf := c.toBuf ++ (Reply.errPre e name ++ r ++ prompt) } :=
+                (Reply.actFinish_last w id e name c k r hq hcmd hp hr).2
+              rw [h2] at hc'
+              cases hc'
+              cases hk'
+          · have h2 : cliRec (actFinish w id e name).1 id =
+                some { c with cmd := some { k with error := k.error || (e != .success), pending := k.pending - 1 },
+                              toBuf := c.toBuf ++ Reply.errPre e name } :=
+              (Reply.actFinish_more w id e name c k hq hcmd hp).2
+            rw [h2] at hc'
+            cases hc'
+            simp only [Option.some.injEq] at hk'
+            subst hk'
+            exact ⟨c, k, rfl, hcmd, rfl⟩
+  · rw [Pm.Daemon.actFinish_other w id g e name hid] at hc'
+    exact ⟨c', k', hc', hk', rfl⟩
+
+theorem updCli_put_cmd (w : W) (id : Nat) (b : Bytes) (g : Nat) (c' : Cli) (k' : CmdC)
+    (hc' : cliRec (updCli w id fun c => put c b) g = some c') (hk' : c'.cmd = some k') :
+    ∃ c k, cliRec w g = some c ∧ c.cmd = some k ∧ k.al = k'.al := by
+  by_cases hid : id = g
+  · subst hid
+    rw [updCli_self w id (fun c => put c b) (fun _ => rfl)] at hc'
+    cases hq : cliRec w id with
+    | none => rw [hq] at hc'; cases hc'
+    | some c =>
+      rw [hq] at hc'
+      simp only [Option.map_some, Option.some.injEq] at hc'
+      subst hc'
+      exact ⟨c, k', rfl, hk', rfl⟩
+  · rw [updCli_other w id g (fun c => put c b) (fun _ => rfl) hid] at hc'
+    exact ⟨c', k', hc', hk', rfl⟩
+
+theorem applyOut_cmd (name : Bytes) (acc : W × List String) (o : DOut) (g : Nat) (c' : Cli) (k' : CmdC)
+    (hc' : cliRec (applyOut name acc o).1 g = some c') (hk' : c'.cmd = some k') :
+    ∃ c k, cliRec acc.1 g = some c ∧ c.cmd = some k ∧ k.al = k'.al := by
+  obtain ⟨w, msgs⟩ := acc
+  cases o with
+  | finish cid e => exact actFinish_cmd w cid e name g c' k' hc' hk'
+  | telemetry cid t => exact updCli_put_cmd w cid _ g c' k' hc' hk'
+  | diag cid t => exact updCli_put_cmd w cid _ g c' k' hc' hk'
+  | sent _ => exact ⟨c', k', hc', hk', rfl⟩
+  | rxMismatch _ _ => exact ⟨c', k', hc', hk', rfl⟩
+  | abortAssert _ => exact ⟨c', k', hc', hk', rfl⟩
+
+theorem foldl_applyOut_cmd (name : Bytes) (g : Nat) (outs : List DOut) : ∀ (acc : W × List String) (c1 : Cli) (k1 : CmdC),
+    cliRec (outs.foldl (applyOut name) acc).1 g = some c1 → c1.cmd = some k1 →
+    ∃ c k, cliRec acc.1 g = some c ∧ c.cmd = some k ∧ k.al = k1.al := by
+  induction outs with
+  | nil => intro acc c1 k1 h1 h2; exact ⟨c1, k1, h1, h2, rfl⟩
+  | cons o r ih =>
+    intro acc c1 k1 h1 h2
+    rw [List.foldl_cons] at h1
+    obtain ⟨c2, k2, g1, g2, g3⟩ := ih _ c1 k1 h1 h2
+    obtain ⟨c0, k0, f1, f2, f3⟩ := applyOut_cmd name acc o g c2 k2 g1 g2
+    exact ⟨c0, k0, f1, f2, f3.trans g3⟩
+
+theorem applyOuts_cmd (w : W) (name : Bytes) (outs : List DOut) (g : Nat) (c' : Cli) (k' : CmdC)
+    (hc' : cliRec (applyOuts w name outs).1 g = some c') (hk' : c'.cmd = some k') :
+    ∃ c k, cliRec w g = some c ∧ c.cmd = some k ∧ k.al = k'.al := by
+  rw [Pm.Daemon.applyOuts_eq] at hc'
+  exact foldl_applyOut_cmd name g outs _ c' k' hc' hk'
+
+theorem devPass_scope (p : PassIn) (a : DevAcc) (nd : Bytes × Dev) (rest : List (Bytes × Dev))
+    (h : ArgScope (worldAt a (nd :: rest))) : ArgScope (worldAt (devPass p a nd) rest) := by
+  refine h.transfer ?_ (devPass_ids_eq p a nd).2.2 ?_
+  · intro g c' k' hc' hk'
+    have hc' : cliRec (devPass p a nd).w g = some c' := hc'
+    show ∃ c k, cliRec a.w g = some c ∧ c.cmd = some k ∧ k.al = k'.al
+    cases hd : a.dead with
+    | true => rw [devPass_dead _ _ _ hd] at hc'; exact ⟨c', k', hc', hk', rfl⟩
+    | false =>
+      rw [devPass_w p a nd hd] at hc'
+      exact applyOuts_cmd (afterStep a.w (devStep p a.w a.oracle nd).1) nd.1 _ g c' k' hc' hk'
+  · intro x hx b hb
+    exact worldAt_devPass_keys
+      (fun cid al => (cid = 0 ∧ al = 0) ∨ ∃ nd0 ∈ (worldAt a (nd :: rest)).devs, ∃ a0 ∈ nd0.2.acts, a0.clientId = cid ∧ a0.arglist = al)
+      (Or.inl ⟨rfl, rfl⟩) p a nd rest (fun y hy b hb => Or.inr ⟨y, hy, b, hb, rfl, rfl⟩) x hx b hb
+
+theorem devPass_iso (p : PassIn) (a : DevAcc) (nd : Bytes × Dev) (rest : List (Bytes × Dev))
+    (h : Iso (worldAt a (nd :: rest))) : Iso (worldAt (devPass p a nd) rest) :=
+  ⟨devPass_idsFresh p a nd rest h.1, devPass_scope p a nd rest h.2⟩
+
+theorem foldl_devPass_iso (p : PassIn) (l : List (Bytes × Dev)) (a : DevAcc) (h : Iso (worldAt a l)) :
+    Iso (worldAt (l.foldl (devPass p) a) []) := by
+  induction l generalizing a with
+  | nil => exact h
+  | cons nd r ih => rw [List.foldl_cons]; exact ih _ (devPass_iso p a nd r h)
+
+theorem ArgScope.congr {w w' : W} (h : ArgScope w) (h1 : w'.clients = w.clients) (h2 : w'.alNext = w.alNext)
+    (h3 : w'.devs = w.devs) : ArgScope w' := by
+  have hc : ∀ g, cliRec w' g = cliRec w g := fun g => by unfold cliRec; rw [h1]
+  exact h.transfer (fun g c' k' hc' hk' => ⟨c', k', hc g ▸ hc', hk', rfl⟩) h2
+    (fun nd hnd a ha => Or.inr ⟨nd, h3 ▸ hnd, a, ha, rfl, rfl⟩)
+
+/-- **a whole pass keeps both disciplines** -/
+theorem daemonPass_iso (w : W) (p : PassIn) (h : Iso w) : Iso (daemonPass w p).1 := by
+  rw [daemonPass_fst]
+  have h0 := cliPostPoll_iso w p.acc p.envs h
+  dsimp only
+  split
+  · exact h0
+  · have := foldl_devPass_iso p (cliPostPoll w p.acc p.envs).devs (acc0 (cliPostPoll w p.acc p.envs))
+      (by rw [worldAt_acc0]; exact h0)
+    exact ⟨this.1.congr rfl rfl (by simp [worldAt]), this.2.congr rfl rfl (by simp [worldAt])⟩
+
+/-- the daemon starts in a state that satisfies both: no client, empty queues, counters at their initial values -/
+theorem iso_init (w : W) (hc : w.clients = []) (hq : ∀ nd ∈ w.devs, nd.2.acts = []) (hn : 0 < w.nextId) : Iso w := by
+  refine ⟨⟨by simp [ids, hc], by simp [ids, hc], by simp [ids, hc], ?_, hn⟩, ⟨?_, ?_, ?_, ?_, ?_⟩⟩
+  · intro nd hnd a ha; rw [hq nd hnd] at ha; cases ha
+  · intro g c k h; simp [cliRec, hc] at h
+  · intro nd hnd a ha; rw [hq nd hnd] at ha; cases ha
+  · intro g c k h; simp [cliRec, hc] at h
+  · intro g g' c c' k k' h; simp [cliRec, hc] at h
+  · intro nd hnd a ha; rw [hq nd hnd] at ha; cases ha
+
+/-- any number of passes -/
+def runPasses (w : W) (ps : List PassIn) : W := ps.foldl (fun w p => (daemonPass w p).1) w
+
+theorem runPasses_iso (w : W) (ps : List PassIn) (h : Iso w) : Iso (runPasses w ps) := by
+  unfold runPasses
+  induction ps generalizing w with
+  | nil => exact h
+  | cons p r ih => rw [List.foldl_cons]; exact ih _ (daemonPass_iso w p h)
+
+/-! ### `dev_initial_connect` (start-up) only adds login actions -/
+
+/-- one step of the loop of `dev_initial_connect` -/
+def icStep (now con soe : Nat) (acc : W × List String × List (Bytes × Dev)) (nd : Bytes × Dev) : W × List String × List (Bytes × Dev) :=
+  let (w, lines, devs) := acc
+  let env := mkDevEnv w nd.2 now con soe []
+  let c := Pm.Dev2.connectDev { dev := nd.2, env := env, sys := [] }
+  ({ w with nsock := w.nsock + countSock c.sys, npair := w.npair + countPair c.sys, nfork := w.nfork + countFork c.sys },
+   lines ++ showSys [] c.sys, devs ++ [(nd.1, c.dev)])
+
+theorem initialConnect_eq (w : W) (now con soe : Nat) :
+    (initialConnect w now con soe).1 =
+      { (w.devs.foldl (icStep now con soe) (w, [], [])).1 with devs := (w.devs.foldl (icStep now con soe) (w, [], [])).2.2 } := by
+  unfold initialConnect icStep
+  rfl
+
+theorem foldl_icStep (S : Nat → Nat → Prop) (h0 : S 0 0) (now con soe : Nat) (l : List (Bytes × Dev))
+    (acc : W × List String × List (Bytes × Dev)) (hl : ∀ nd ∈ l, Keys S nd.2.acts) (ha : ∀ nd ∈ acc.2.2, Keys S nd.2.acts) :
+    (l.foldl (icStep now con soe) acc).1.clients = acc.1.clients ∧ (l.foldl (icStep now con soe) acc).1.nextId = acc.1.nextId ∧
+    (l.foldl (icStep now con soe) acc).1.alNext = acc.1.alNext ∧ ∀ nd ∈ (l.foldl (icStep now con soe) acc).2.2, Keys S nd.2.acts := by
+  induction l generalizing acc with
+  | nil => exact ⟨rfl, rfl, rfl, ha⟩
+  | cons nd r ih =>
+    rw [List.foldl_cons]
+    obtain ⟨w, lines, devs⟩ := acc
+    have := ih (icStep now con soe (w, lines, devs) nd) (fun x hx => hl x (by simp [hx])) (by
+      intro x hx
+      simp only [icStep, List.mem_append, List.mem_singleton] at hx
+      rcases hx with hx | rfl
+      · exact ha x hx
+      · exact DevFrame.keys (Pm.Dev2.connectDev_devFrame { dev := nd.2, env := mkDevEnv w nd.2 now con soe [], sys := [] }) h0 (hl nd (by simp)))
+    exact this
+
+theorem initialConnect_iso (w : W) (now con soe : Nat) (h : Iso w) : Iso (initialConnect w now con soe).1 := by
+  rw [initialConnect_eq]
+  constructor
+  · obtain ⟨h1, h2, _, h4⟩ := foldl_icStep (fun cid _ => cid < w.nextId) h.1.one now con soe w.devs (w, [], [])
+      (fun nd hnd a ha => h.1.acts nd hnd a ha) (by intro nd hnd; cases hnd)
+    refine h.1.transfer (by unfold ids; rw [show _ = w.clients from h1]; exact List.Sublist.refl _) h2 ?_
+    intro nd hnd a ha
+    rw [show _ = w.nextId from h2]
+    exact h4 nd hnd a ha
+  · obtain ⟨h1, _, h3, h4⟩ := foldl_icStep
+      (fun cid al => (cid = 0 ∧ al = 0) ∨ ∃ nd0 ∈ w.devs, ∃ a0 ∈ nd0.2.acts, a0.clientId = cid ∧ a0.arglist = al)
+      (Or.inl ⟨rfl, rfl⟩) now con soe w.devs (w, [], [])
+      (fun nd hnd a ha => Or.inr ⟨nd, hnd, a, ha, rfl, rfl⟩) (by intro nd hnd; cases hnd)
+    have hc : ∀ g, cliRec { (w.devs.foldl (icStep now con soe) (w, [], [])).1 with devs := (w.devs.foldl (icStep now con soe) (w, [], [])).2.2 } g = cliRec w g := by
+      intro g; unfold cliRec; rw [show _ = w.clients from h1]
+    exact h.2.transfer (fun g c' k' hc' hk' => ⟨c', k', hc g ▸ hc', hk', rfl⟩) h3 (fun nd hnd a ha => h4 nd hnd a ha)
+
+/-! ### what the disciplines give: only `g`'s own actions write `g`'s arglist -/
+
+/-- under the arglist discipline, while client `g` has a command with arglist `k.al ≠ 0`: a device on which `g` has no
+    action queued leaves `g`'s arglist exactly as it is — whatever the other clients' actions on that device do, even
+    on the very same nodes -/
+theorem devPass_result_scope (p : PassIn) (a : DevAcc) (nd : Bytes × Dev) (rest : List (Bytes × Dev)) (g : Nat) (c : Cli) (k : CmdC)
+    (h : ArgScope (worldAt a (nd :: rest))) (hc : cliRec a.w g = some c) (hk : c.cmd = some k) (hal : k.al ≠ 0)
+    (hq : ∀ x ∈ nd.2.acts, x.clientId ≠ g) : storeArgs (devPass p a nd).w k.al = storeArgs a.w k.al := by
+  have hnd : nd ∈ (worldAt a (nd :: rest)).devs := by simp [worldAt]
+  have : ∀ x ∈ nd.2.acts, x.arglist ≠ k.al := by
+    intro x hx e
+    by_cases h0 : x.clientId = 0
+    · exact hal (e ▸ h.internal nd hnd x hx h0)
+    · exact hq x hx (h.owned g c k hc hk nd hnd x hx h0 e)
+  unfold storeArgs
+  rw [devPass_store_cell p a nd k.al hal this]
+
+/-- under the arglist discipline an action of somebody else (another client, or the internal login/ping) does not carry the
+    arglist id of `g`'s command (`k.al ≠ 0`: see the finding about the internal actions' dummy id) -/
+theorem ArgScope.foreign {w : W} (h : ArgScope w) {g : Nat} {c : Cli} {k : CmdC} (hc : cliRec w g = some c) (hk : c.cmd = some k)
+    (hal : k.al ≠ 0) {nd : Bytes × Dev} (hnd : nd ∈ w.devs) {x : Action} (hx : x ∈ nd.2.acts) (hne : x.clientId ≠ g) :
+    x.arglist ≠ k.al := by
+  intro e
+  by_cases h0 : x.clientId = 0
+  · exact hal (e ▸ h.internal nd hnd x hx h0)
+  · exact hne (h.owned g c k hc hk nd hnd x hx h0 e)
+
+/-- one statement of a script, run for action `a`, writes no arglist but `a`'s own -/
+theorem processStmt_own_arglist (d : Dev) (a : Action) (o : Oracle) (now : Nat) (al : Nat) (h : al ≠ a.arglist) :
+    (Pm.Dev2.processStmt d a o now).dev.args.lookup al = d.args.lookup al :=
+  (Pm.Dev2.processStmt_frame (fun _ => false) d a o now (fun _ _ _ _ => rfl)).cellOther al h
+
+/-! ## 6. back-pressure: a client that does not read -/
+
+theorem written_other (ss ext : List Sys) (fd fd0 : Nat) (h : ∀ s ∈ ext, sysFd s = some fd0) (hne : fd ≠ fd0) :
+    ClientPf.written (ss ++ ext) fd = ClientPf.written ss fd := by
+  rw [ClientPf.written_append]
+  have : ClientPf.written ext fd = [] := by
+    unfold ClientPf.written
+    rw [List.flatMap_eq_nil_iff]
+    intro s hs
+    have hf := h s hs
+    cases s with
+    | write f b e bl =>
+      simp only [sysFd, Option.some.injEq] at hf
+      have : (f == fd) = false := by rw [hf]; simpa using fun e => hne e.symm
+      simp [this]
+    | accept _ => rfl
+    | close _ => rfl
+    | read _ _ => rfl
+  rw [this, List.append_nil]
+
+/-- one turn of the client loop logs system calls on the served client's descriptor only, and changes the write capacity
+    of that descriptor only -/
+theorem cliStep_sys (envs : List FdEnv) (w : W) (c0 : Cli) :
+    ∃ ext, (ClientPf.cliStep envs w c0).sys = w.sys ++ ext ∧ (∀ s ∈ ext, sysFd s = some c0.fd) ∧
+      ∀ fd, fd ≠ c0.fd → capOf (ClientPf.cliStep envs w c0) fd = capOf w fd := by
+  rcases cliStep_cases envs w c0 with ⟨_, e⟩ | ⟨_, ext, hp, ⟨c, _, e⟩ | ⟨_, e⟩⟩
+  · exact ⟨[], by rw [e]; simp, by simp, fun _ _ => by rw [e]⟩
+  · exact ⟨ext, by rw [e]; exact hp.sys, hp.sysfd, fun fd hfd => by rw [e]; exact hp.caps fd hfd⟩
+  · exact ⟨ext, by rw [e]; exact hp.sys, hp.sysfd, fun fd hfd => by rw [e]; exact hp.caps fd hfd⟩
+
+/-- **frame of the client loop**: the turns of clients other than `x` (other id, other descriptor) leave `x`'s record, the
+    bytes written to `x`'s descriptor and the capacity of `x`'s descriptor exactly as they are -/
+theorem foldl_cliStep_frame (envs : List FdEnv) (x : Cli) (l : List Cli) (w : W) (hid : ∀ c ∈ l, c.id ≠ x.id)
+    (hfd : ∀ c ∈ l, c.fd ≠ x.fd) :
+    cliRec (l.foldl (ClientPf.cliStep envs) w) x.id = cliRec w x.id ∧
+    ClientPf.written (l.foldl (ClientPf.cliStep envs) w).sys x.fd = ClientPf.written w.sys x.fd ∧
+    capOf (l.foldl (ClientPf.cliStep envs) w) x.fd = capOf w x.fd := by
+  induction l generalizing w with
+  | nil => exact ⟨rfl, rfl, rfl⟩
+  | cons c r ih =>
+    rw [List.foldl_cons]
+    obtain ⟨i1, i2, i3⟩ := ih (ClientPf.cliStep envs w c) (fun y hy => hid y (by simp [hy])) (fun y hy => hfd y (by simp [hy]))
+    obtain ⟨ext, s1, s2, s3⟩ := cliStep_sys envs w c
+    refine ⟨i1.trans (cliStep_other envs w c x.id (fun e => hid c (by simp) e.symm)), ?_, i3.trans (s3 x.fd (fun e => hfd c (by simp) e.symm))⟩
+    rw [i2, s1]
+    exact written_other w.sys ext x.fd c.fd s2 (fun e => hfd c (by simp) e.symm)
+
+/-- in the loop of `cli_post_poll` a client's record is read and written in its own turn only: the turns before it leave
+    it as it is (so the record the loop serves is the one in the table), the turns after it leave what its own turn made
+    of it -/
+theorem foldl_cliStep_split (envs : List FdEnv) (x : Cli) (pre post : List Cli) (w : W)
+    (hpre : ∀ c ∈ pre, c.id ≠ x.id) (hpost : ∀ c ∈ post, c.id ≠ x.id) :
+    cliRec (pre.foldl (ClientPf.cliStep envs) w) x.id = cliRec w x.id ∧
+    cliRec ((pre ++ x :: post).foldl (ClientPf.cliStep envs) w) x.id =
+      cliRec (ClientPf.cliStep envs (pre.foldl (ClientPf.cliStep envs) w) x) x.id := by
+  refine ⟨foldl_cliStep_other envs x.id pre w hpre, ?_⟩
+  rw [List.foldl_append, List.foldl_cons]
+  exact foldl_cliStep_other envs x.id post _ hpost
+
+/-- the turn of a client for which the pass brings nothing (no event on its descriptor — in particular it is not reported
+    writable although output is waiting —, no complete request line buffered, not about to be destroyed) is the identity -/
+theorem cliStep_quiet' (envs : List FdEnv) (w : W) (s : Cli) (h : IdsFresh w) (hs : s ∈ w.clients) (hq : QuietCli envs s) :
+    ClientPf.cliStep envs w s = w :=
+  cliStep_quiet envs w s hs hq h.unique
+
+/-- ... so the loop of `cli_post_poll` runs exactly as if that client's turn were skipped: a client that has stopped
+    reading and is silent costs the other sessions nothing in the client phase -/
+theorem foldl_cliStep_skip (envs : List FdEnv) (s : Cli) (pre post : List Cli) (w : W) (h : IdsFresh w)
+    (hl : ∀ c ∈ pre, c.id < w.nextId) (hs : s ∈ w.clients) (hpre : ∀ c ∈ pre, c.id ≠ s.id) (hq : QuietCli envs s) :
+    (pre ++ s :: post).foldl (ClientPf.cliStep envs) w = (pre ++ post).foldl (ClientPf.cliStep envs) w := by
+  rw [List.foldl_append, List.foldl_append, List.foldl_cons]
+  have hmem : ∀ (l : List Cli) (w : W), s ∈ w.clients → (∀ c ∈ l, c.id ≠ s.id) → s ∈ (l.foldl (ClientPf.cliStep envs) w).clients := by
+    intro l
+    induction l with
+    | nil => intro w hw _; exact hw
+    | cons c r ih =>
+      intro w hw hne
+      rw [List.foldl_cons]
+      exact ih _ (cliStep_mem envs w c s hw (fun e => hne c (by simp) e.symm)) (fun y hy => hne y (by simp [hy]))
+  rw [cliStep_quiet' envs _ s (foldl_cliStep_ids envs pre w h hl) (hmem pre w hs hpre) hq]
+
+/-- `_handle_write` on a non-blocking descriptor that takes nothing (the model's `cap = 0`: the `write` fails with EAGAIN and
+    `cbuf_read_to_fd` returns -1): an empty write is logged and the client is marked as gone; nothing else happens -/
+theorem handleWrite_stuck (w : W) (c : Cli) (hcap : capOf w c.fd = 0) (hq : c.quit = false) (hb : c.blocking = false)
+    (hne : c.toBuf ≠ []) :
+    handleWrite w c = ({ w with sys := w.sys ++ [Sys.write c.fd [] false false] }, { c with quit := true }) := by
+  unfold handleWrite
+  have he : c.toBuf.isEmpty = false := by simpa using hne
+  simp [hq, hb, he, hcap]
+
+/-- a client whose descriptor is not reported writable in this pass, and which survives the pass without having quit:
+    nothing was written to its descriptor and its output buffer only grew -/
+theorem clientPass_unwritable (w : W) (c : Cli) (e : Option FdEnv) (c' : Cli) (hrev : ClientPf.cpRev c e &&& 2 = 0)
+    (h : (clientPass w c e).2 = some c') (hq : c'.quit = false) :
+    (∃ b, c'.toBuf = c.toBuf ++ b) ∧ ClientPf.written (clientPass w c e).1.sys c.fd = ClientPf.written w.sys c.fd := by
+  obtain ⟨ext, hp, hw⟩ := clientPass_iso w c e
+  have hno : ∀ s ∈ ext, isWrite s = false := by
+    intro s hs
+    cases hws : isWrite s with
+    | false => rfl
+    | true => have := hw hrev c' h ⟨s, hs, hws⟩; rw [hq] at this; cases this
+  obtain ⟨_, _, _, _, hbuf⟩ := hp.alive c' h
+  constructor
+  · rcases hbuf with hb | ⟨s, hs, hws⟩
+    · exact hb
+    · rw [hno s hs] at hws; cases hws
+  · rw [hp.sys, ClientPf.written_append]
+    have : ClientPf.written ext c.fd = [] := by
+      unfold ClientPf.written
+      rw [List.flatMap_eq_nil_iff]
+      intro s hs
+      have := hno s hs
+      cases s <;> simp_all [isWrite]
+    rw [this, List.append_nil]
+
+/-- `_handle_write` for a client that has quit: the descriptor is made blocking and the *whole* buffer is handed to one
+    `write`, whatever the capacity `cap ≥ 0` of the descriptor; that the daemon then sleeps in `write` (finding F23) is
+    visible in the model only as the `blocks` flag of the logged call -/
+theorem handleWrite_quit (w : W) (c : Cli) (hq : c.quit = true) (hne : c.toBuf ≠ []) (hcap : ¬ capOf w c.fd < 0) :
+    handleWrite w c =
+      ({ w with sys := w.sys ++ [Sys.write c.fd c.toBuf false (decide (capOf w c.fd < (c.toBuf.length : Int)))] },
+       { c with blocking := true, toBuf := [] }) := by
+  unfold handleWrite
+  have he : c.toBuf.isEmpty = false := by simpa using hne
+  simp [hq, he, hcap]
+
+/-! ## example worlds for the non-vacuity examples of `Props/C11`
+
+One device `A` with one plug (`1` ↦ node `a1`) and a `status` script (`send "st %s\n"`, `expect`, `setplugstate $1 $2`).  Two
+clients connect and both ask `status a1` — the same node, at the same time. -/
+namespace Two
+open Pm.Dev2 (Stmt Plug Arg RxCall)
+
+def nodeA : Bytes := [97, 49]
+def plugA : Plug := { name := [49], node := some nodeA }
+def statScript : List Stmt := [.send [115, 116, 32, 37, 115, 10], .expect 1, .setplugstate none 1 2 [(.on, 2), (.off, 3)]]
+def scripts : Nat → Option (List Stmt) := fun k => if k == 2 then some statScript else none
+def devA : Dev :=
+  { plugs := [plugA], scripts := scripts, timeout := 5000000, acts := [], toBuf := [], fromBuf := [], xmStr := none, xmOffs := [],
+    xmResult := false, xmUsed := false, args := [], nextUid := 1, shortCircuitDelay := false, conn := 2, loggedIn := true,
+    fd := some 2000, statConnects := 1 }
+/-- the daemon after start-up: no client, an empty queue -/
+def w0 : W :=
+  { cfg := { plugs := [], has := [], nodes := pushHost [] ['a', '1'], version := [50] }, clients := [],
+    devs := [([65], devA)], nsock := 1 }
+def line : Bytes := bstr "status a1\n"
+/-- pass 1: a connection is accepted (client 1, descriptor 1000) -/
+def p1 : PassIn := { now := 1000, acc := 1, con := 0, soe := 0, envs := [] }
+/-- pass 2: a second connection is accepted (client 2, descriptor 1001); client 1 sends `status a1` -/
+def p2 : PassIn := { now := 2000, acc := 1, con := 0, soe := 0, envs := [{ fd := 1000, rev := 1, rk := 0, data := line, cap := 100 }] }
+/-- pass 3: client 2 sends `status a1` too; the device takes the bytes of client 1's action -/
+def p3 : PassIn :=
+  { now := 3000, acc := 0, con := 0, soe := 0,
+    envs := [{ fd := 1001, rev := 1, rk := 0, data := line, cap := 100 }, { fd := 2000, rev := 2, rk := 0, data := [], cap := 100 }] }
+/-- both requests in flight: the queue of `A` holds client 1's action (arglist 0) and client 2's (arglist 1) -/
+def w3 : W := runPasses w0 [p1, p2, p3]
+/-- the regex answers for the device's reply `1 on\n` -/
+def xs4 : List RxCall :=
+  [{ pat := 1, subject := bstr "1 on\n", answer := some [(0, 5), (0, 1), (2, 4)] }, { pat := 2, subject := bstr "on", answer := some [(0, 2)] }]
+/-- pass 4: the device answers client 1's action -/
+def p4 : PassIn := { now := 4000, acc := 0, con := 0, soe := 0, envs := [{ fd := 2000, rev := 1, rk := 0, data := bstr "1 on\n", cap := 100 }] }
+def w3x : W := { w3 with pendingX := xs4 }
+def w4 : W := (daemonPass w3x p4).1
+/-- instead of pass 4: client 1's descriptor reports an error -/
+def pErr : PassIn := { now := 3500, acc := 0, con := 0, soe := 0, envs := [{ fd := 1000, rev := 8, rk := 0, data := [], cap := 0 }] }
+def w3d : W := (daemonPass w3 pErr).1
+def w4d : W := (daemonPass { w3d with pendingX := xs4 } p4).1
+
+theorem iso0 : Iso w0 := iso_init w0 rfl (by intro nd hnd; simp [w0] at hnd; subst hnd; rfl) (by decide)
+theorem iso3 : Iso w3 := runPasses_iso w0 _ iso0
+
+/-- the state reached: two clients, each with a `status` command on the one node `a1`, pending on one action each; the
+    queue of `A` holds the two actions, stamped (1, arglist 0) and (2, arglist 1) -/
+theorem reached : ids w3 = [1, 2] ∧ w3.clients.map (·.fd) = [1000, 1001] ∧
+    w3.clients.map (fun c => c.cmd.map fun k => k.names) = [some [['a', '1']], some [['a', '1']]] ∧
+    w3.clients.map (fun c => c.cmd.map fun k => (comIdx k.com, k.al, k.pending)) = [some (2, 0, 1), some (2, 1, 1)] ∧
+    w3.devs.map (fun nd => nd.2.acts.map fun a => (a.clientId, a.arglist)) = [[(1, 0), (2, 1)]] ∧
+    w3.nextId = 3 ∧ w3.alNext = 2 := by decide +kernel
+
+end Two
 
 end Pm.Daemon.Isolation
+
+section AxiomChecks
+open Pm.Daemon.Isolation
+end AxiomChecks
